@@ -872,14 +872,34 @@ def run_case(line):
     return pyimpl_store.run_case(c)
 
 
+class CaseTimeout(BaseException):
+    pass
+
+
+def _on_alarm(signum, frame):
+    raise CaseTimeout()
+
+
 def main():
+    import signal
+    signal.signal(signal.SIGALRM, _on_alarm)
+    limit = int(os.environ.get('RMK_CASE_TIMEOUT', '30'))
     for line in sys.stdin:
         line = line.strip()
         if not line:
             print('')
             continue
         try:
-            print(run_case(line))
+            signal.alarm(limit)
+            try:
+                out = run_case(line)
+            finally:
+                signal.alarm(0)
+            print(out)
+        except CaseTimeout:
+            print('p.timeout=%d' % limit)
+        except MemoryError:
+            print('p.timeout=memory')
         except Exception as e:  # harness failure, not an observation
             print('HARNESS-ERROR %s: %s' % (type(e).__name__, str(e).replace('\n', ' ')[:200]))
         sys.stdout.flush()
